@@ -15,10 +15,15 @@ What is literal and what is not
   `_get_eligible` and `_validate_parentage` line by line (fuel = size of the batch,
   `Err.fuel` is proved unreachable in Props: `update_ne_fuel`).
 * `anc` (`_ancestors`) recurses over the insertion order instead of looking the
-  parent up in the whole dict; `descF` (`descendants`) follows `_loer` with fuel
+  parent up in the whole dict; `descN` (`descendants`) follows `_loer` with fuel
   `len(_hier)`; a child that is no key of `_loer` is treated as childless there
   (Python: KeyError) — unreachable by `parents_children_closed` (Props).  Both choices are
   justified by the invariant `WF` (Props) and tied to the code by the correspondence run.
+* normalisation happens exactly where the code has it: once at the head of every public
+  method, AGAIN in nested public calls (`subsumes`/`compatible` → `descendants`,
+  `descendants` → `descendants(child)`, `__getitem__`/`__setitem__` → `__contains__`,
+  `items` → `__getitem__` on stored identifiers), in `update` on keys, parents and data keys.
+  Hence the closure theorems need an idempotent normaliser (as the code does).
 -/
 namespace Verif.C17
 
@@ -92,11 +97,6 @@ def childrenOf (loer : AL (List Id)) (x : Id) : List Id := (get? loer x).getD []
 def anc : AL (List Id) → Id → List Id
   | [], _ => []
   | (k, ps) :: rest, x => if x = k then ps ++ ps.flatMap (anc rest) else anc rest x
-
-/-- `descendants` with fuel. -/
-def descF : Nat → AL (List Id) → Id → List Id
-  | 0, _, _ => []
-  | n + 1, loer, x => (childrenOf loer x).flatMap (fun c => c :: descF n loer c)
 
 /-! ### update -/
 
@@ -195,36 +195,46 @@ def children (norm : Id → Id) (h : H) (x : Id) : Except Err (List Id) :=
 def ancestors (norm : Id → Id) (h : H) (x : Id) : Except Err (List Id) :=
   if norm x ∈ keys h.hier then .ok (anc h.hier (norm x)) else .error .keyError
 
-/-- descendants of an already normalised id -/
-def desc (h : H) (x : Id) : Except Err (List Id) :=
-  if x ∈ keys h.loer then .ok (descF h.hier.length h.loer x) else .error .keyError
+/-- `descendants`, literally: the method normalises its argument and then calls ITSELF on every
+child, i.e. every child is normalised again (fuel: `len(_hier)` levels). -/
+def descN (norm : Id → Id) : Nat → AL (List Id) → Id → List Id
+  | 0, _, _ => []
+  | n + 1, loer, x => (childrenOf loer (norm x)).flatMap (fun c => c :: descN norm n loer c)
 
-def descendants (norm : Id → Id) (h : H) (x : Id) : Except Err (List Id) := desc h (norm x)
+def descendants (norm : Id → Id) (h : H) (x : Id) : Except Err (List Id) :=
+  if norm x ∈ keys h.loer then .ok (descN norm h.hier.length h.loer x) else .error .keyError
 
-/-- `a == b or b in self.descendants(a)` -/
+/-- `a, b = norm(a), norm(b); return a == b or b in self.descendants(a)` — `descendants`
+normalises the already normalised `a` once more, as the code does. -/
 def subsumes (norm : Id → Id) (h : H) (a b : Id) : Except Err Bool :=
-  if norm a = norm b then .ok true
-  else match desc h (norm a) with
-    | .ok ds => .ok (decide (norm b ∈ ds))
+  let a' := norm a
+  let b' := norm b
+  if a' = b' then .ok true
+  else match descendants norm h a' with
+    | .ok ds => .ok (decide (b' ∈ ds))
     | .error e => .error e
 
+/-- `a, b = norm(a), norm(b)`; lineages `self.descendants(a).union([a])`, `…(b)…`; non-empty intersection -/
 def compatible (norm : Id → Id) (h : H) (a b : Id) : Except Err Bool :=
-  match desc h (norm a) with
+  let a' := norm a
+  let b' := norm b
+  match descendants norm h a' with
   | .error e => .error e
   | .ok da =>
-    match desc h (norm b) with
+    match descendants norm h b' with
     | .error e => .error e
-    | .ok db => .ok ((norm a :: da).any (fun x => decide (x ∈ norm b :: db)))
+    | .ok db => .ok ((a' :: da).any (fun x => decide (x ∈ b' :: db)))
 
-/-- `__getitem__` -/
+/-- `__getitem__`: `identifier = norm(identifier)`; the fallback `identifier not in self` goes
+through `__contains__`, which normalises again -/
 def getItem (norm : Id → Id) (h : H) (x : Id) : Except Err (Option Dat) :=
   match get? h.data (norm x) with
   | some d => .ok (some d)
-  | none => if norm x ∈ keys h.hier then .ok none else .error .keyError
+  | none => if contains norm h (norm x) then .ok none else .error .keyError
 
-/-- `__setitem__` -/
+/-- `__setitem__`: `identifier = norm(identifier)`; `if identifier not in self` (normalises again) -/
 def setItem (norm : Id → Id) (h : H) (x : Id) (d : Dat) : Except Err H :=
-  if norm x ∈ keys h.hier then .ok { h with data := (norm x, d) :: h.data }
+  if contains norm h (norm x) then .ok { h with data := (norm x, d) :: h.data }
   else .error .hierarchyError
 
 /-- `__iter__`: insertion order without the top -/
